@@ -1,4 +1,5 @@
 import Toodee.Driver.Run
+import Toodee.Driver.SpecOracle
 /-
   The property oracle `S`: judges the harness's observation of one step against what the *properties* demand — not against
   the Impl-model — exactly as weakly as the property text.  Verdicts: `ok`, `FAIL <why>`, `?` (not judged).
@@ -46,7 +47,11 @@ def oracle (cx : Ctx) (prev : RObs) (line : String) (robs : Option RObs) : Strin
   | some r =>
     if r.status = "bad-op" ∨ r.status = "unsupported" then "?"
     else
-      match genericChecks cx prev line r with
+      let specific : List String :=
+        match specStep cx line r <|> specRootStep cx line with
+        | some e => checkSExp e r
+        | none => []
+      match genericChecks cx prev line r ++ specific with
       | [] => "ok"
       | fs => "FAIL " ++ ",".intercalate fs
 
